@@ -163,6 +163,8 @@ class Engine:
                 st = 'panic'
                 info = str(e)
                 out = getattr(self, 'panic_out', None)
+                if callable(out):
+                    out = out()      # the harness' view of the state at the moment of the panic
             except Infeasible:
                 st = None
             except Inconclusive as e:
@@ -511,6 +513,8 @@ class Engine:
         return Opaque('const:' + txt)
 
     def make_closure(self, loc, caps):
+        if '@' in loc:
+            loc = loc.split('@', 1)[1]
         f = self.closures_by_loc.get(loc)
         if f is None:
             raise Unsupported('closure body for ' + loc)
